@@ -51,6 +51,7 @@ def is_container(v): return is_arr(v) or is_obj(v)
 def is_nothing(v): return isinstance(v, _Nothing)
 def is_nodelist(v): return isinstance(v, _jp.JSONPathNodeList)
 def is_tuple(v): return isinstance(v, tuple)
+def is_pattern(v): return isinstance(v, __import__('re').Pattern)
 def nkeys(d): return len(d)
 def prog_at(lo, step, j): return lo + j * step
 def prog_len(lo, hi, step): return len(range(lo, hi, step))
@@ -107,6 +108,7 @@ from jsonpath_rfc9535.segments import JSONPathChildSegment, JSONPathRecursiveDes
 from jsonpath_rfc9535.selectors import (  # noqa: E402
     FilterSelector, IndexSelector, JSONPathSelector, NameSelector, SliceSelector, WildcardSelector)
 from jsonpath_rfc9535.tokens import Token  # noqa: E402
+from jsonpath_rfc9535.lex import Lexer  # noqa: E402
 
 
 def is_gen(x): return hasattr(x, "__next__")
